@@ -1,7 +1,9 @@
 #!/bin/bash
 # Runs a property's check against a mutated copy of the repository WITHOUT touching /repo or this tree:
 # a private copy of /verif (own cargo target dir) is used, with VERIF_REPO pointing at the mutated worktree.
+# env VERIF_MUT_COPY=<dir> selects the private copy (default /tmp/verif_mut; use one per concurrent user)
 # usage: tools/on_mutant.sh <repo_path> <prop> [tier]
 set -u
-rsync -a --delete --exclude .target --exclude work --exclude replays --exclude .git /verif/ /tmp/verif_mut/ || exit 2
-cd /tmp/verif_mut && VERIF_REPO="$1" ./check "$2" "${3:-quick}"
+C=${VERIF_MUT_COPY:-/tmp/verif_mut}
+rsync -a --delete --exclude .target --exclude work --exclude replays --exclude .git /verif/ $C/ || exit 2
+cd $C && VERIF_REPO="$1" ./check "$2" "${3:-quick}"
